@@ -61,6 +61,8 @@ type Run struct {
 	Changes []stepChange
 	// From: the yield point each step was released from ("start": the call was invoked at this step)
 	From []string
+	// HailSteps: (scenarios on a hail model) the hails held before the first step and after every step
+	HailSteps []map[int]P
 }
 
 // stepChange: step Step (of thread T, inside its call Op) changed what the resources hold; Res is the result the
@@ -102,6 +104,9 @@ func runScheduled(ctl *k4.Controller, sc Scenario, prefix []int, choose func(ena
 	step := int64(0)
 	pi := 0
 	snap := w.snapshot()
+	if w.hail != nil {
+		r.HailSteps = append(r.HailSteps, w.hailMap())
+	}
 	for {
 		var enabled []int
 		for t := 0; t < n; t++ {
@@ -167,6 +172,9 @@ func runScheduled(ctl *k4.Controller, sc Scenario, prefix []int, choose func(ena
 			r.Hist = append(r.Hist, HOp{T: pick, N: cur[pick], Op: sc.Progs[pick][min(cur[pick], len(sc.Progs[pick])-1)], Inv: inv[pick], Resp: step, Res: "deadlock", GenID: -1})
 			r.Final, r.Stamps = map[int]P{}, map[int]int64{}
 			return r
+		}
+		if w.hail != nil {
+			r.HailSteps = append(r.HailSteps, w.hailMap())
 		}
 		if now != snap {
 			ch := stepChange{Step: int(step), T: pick, N: cur[pick], Before: snap, After: now,
@@ -453,6 +461,9 @@ func judgeSteps(r *Run) *verdict {
 		if strings.HasPrefix(ch.Res, "ok:") && ch.Res != "ok:nil" {
 			continue
 		}
+		if ch.Op.K == "h" {
+			continue // CreateHail and its sweep: judged step by step in expandSweeps
+		}
 		what := "the call had not returned (it was between its optimistic read and its commit)"
 		if ch.Res != "" {
 			what = "the call returned " + ch.Res
@@ -591,7 +602,7 @@ func genScenario(rng *rand.Rand, maxThreads, maxOps int) Scenario {
 	if mode == 13 { // versioned updates and deletes of one publication through publicationpb.ModelServer
 		sc.Clock = "f"
 		if rng.Intn(5) > 0 {
-			sc.Init[strconv.Itoa(pubID)] = P{int64(rng.Intn(3)), 0}
+			sc.Init[strconv.Itoa(pubID)] = P{int64(rng.Intn(3)), []int64{0, 0, 0, 1, 2}[rng.Intn(5)]}
 		}
 	}
 	if mode == 12 { // enter / leave events through enterleavesensorpb.Model.CreateEnterLeaveEvent
@@ -672,6 +683,9 @@ func genScenario(rng *rand.Rand, maxThreads, maxOps int) Scenario {
 				if rng.Intn(4) > 0 {
 					o.Expect = &P{int64(rng.Intn(3)), 0}
 				}
+				if rng.Intn(5) < 2 { // an acknowledgement of some version: accepted, rejected or "no signal"
+					o = ackOp(int64(rng.Intn(3)), []int64{2, 3, 2, 3, 1}[rng.Intn(5)])
+				}
 				prog = append(prog, o)
 			case mode == 5: // increments of the Value
 				o := Op{K: "v", ID: valueID, F: []string{"a", "a", "b"}[rng.Intn(3)] + strconv.Itoa(1+rng.Intn(3))}
@@ -705,6 +719,12 @@ func genScenario(rng *rand.Rand, maxThreads, maxOps int) Scenario {
 	}
 	if rng.Intn(5) == 0 && sc.spellable() {
 		sc.spell(rng) // the collection has an id interceptor and the callers do not agree on how to write an id
+	}
+	if sc.Writable == "" && rng.Intn(4) == 0 {
+		sc.Carrier = "chg" // the resources hold messages of another type
+		if sc.hailable() && rng.Intn(2) == 0 {
+			sc.Carrier = "hail" // the collection is a hail model's: Update = UpdateHail, Delete = DeleteHail
+		}
 	}
 	return sc
 }
@@ -793,6 +813,12 @@ func genNested(rng *rand.Rand) Scenario {
 	if rng.Intn(4) == 0 && sc.spellable() {
 		sc.spell(rng)
 	}
+	if sc.Writable == "" && rng.Intn(4) == 0 {
+		sc.Carrier = "chg"
+		if sc.hailable() && rng.Intn(2) == 0 {
+			sc.Carrier = "hail"
+		}
+	}
 	return sc
 }
 
@@ -869,7 +895,39 @@ func witnessScenarios() []Scenario {
 		{Init: map[string]P{"5": {1, 0}}, Clock: "f", Progs: [][]Op{{pubOp(2, pp(1, 0))}, {pubOp(3, pp(1, 0))}}},
 		{Init: map[string]P{"5": {1, 0}}, Clock: "f", Progs: [][]Op{{Op{K: "q", ID: pubID, Expect: pp(1, 0)}}, {pubOp(2, pp(1, 0)), pubOp(1, pp(2, 0))}}},
 		{Init: map[string]P{"5": {1, 0}}, Clock: "f", Progs: [][]Op{{pubOp(2, nil)}, {pubOp(3, pp(1, 0))}, {Op{K: "q", ID: pubID, AM: true, Expect: pp(3, 0)}}}},
+		// acknowledgements (a check-guarded masked Update of the receipt): two clients answer one version; an
+		// acknowledgement against a new version being published; a second answer after "no signal"
+		{Init: map[string]P{"5": {1, 0}}, Clock: "f", Progs: [][]Op{{ackOp(1, 2)}, {ackOp(1, 3)}}},
+		{Init: map[string]P{"5": {1, 0}}, Clock: "f", Progs: [][]Op{{ackOp(1, 2)}, {pubOp(2, pp(1, 0)), ackOp(2, 3)}}},
+		{Init: map[string]P{"5": {1, 1}}, Clock: "f", Progs: [][]Op{{ackOp(1, 1), ackOp(1, 2)}, {ackOp(1, 3)}}},
 	}
+}
+
+// carrierWitnesses: race windows of the generic write path on resources that hold another message type (one whose
+// field b the library's Pull-response comparer leaves out): every schedule
+func carrierWitnesses() []Scenario {
+	set := func(a, b int64) string { return "s" + P{a, b}.String() }
+	inc := func(k int) Op { return Op{K: "u", ID: 0, F: "a" + strconv.Itoa(k)} }
+	incb := func(k int) Op { return Op{K: "u", ID: 0, F: "b" + strconv.Itoa(k), Mask: "b"} }
+	out := []Scenario{
+		{Init: map[string]P{"0": {1, 1}}, Progs: [][]Op{{inc(1)}, {incb(2)}}},
+		{Init: map[string]P{"0": {1, 0}}, Clock: "f", Progs: [][]Op{{Op{K: "u", ID: 0, Check: "eq1", F: set(2, 0), Mask: "a"}}, {Op{K: "u", ID: 0, F: set(0, 3), Mask: "b"}}}},
+		{Init: map[string]P{"0": {1, 1}}, Progs: [][]Op{{Op{K: "u", ID: 0, Expect: pp(1, 1), F: set(2, 1)}}, {Op{K: "u", ID: 0, Expect: pp(1, 1), F: set(1, 3)}}}},
+		{Init: map[string]P{"0": {1, 1}}, Progs: [][]Op{{Op{K: "d", ID: 0, Expect: pp(1, 1)}}, {incb(1)}}},
+		{Init: map[string]P{}, Progs: [][]Op{{Op{K: "u", ID: 0, EA: true, CIA: true, F: set(1, 0)}}, {Op{K: "u", ID: 0, CIA: true, F: "b2"}}}},
+		{Init: map[string]P{"9": {1, 1}}, Clock: "f", Progs: [][]Op{{Op{K: "v", ID: valueID, F: "a1"}}, {Op{K: "v", ID: valueID, F: "b1", Mask: "b"}}}},
+		{Init: map[string]P{"9": {0, 1}}, Progs: [][]Op{{Op{K: "v", ID: valueID, F: set(5, 0), Mask: "a"}}, {Op{K: "v", ID: valueID, F: set(0, 7), Mask: "b"}}}},
+		{Init: map[string]P{}, Progs: [][]Op{{Op{K: "v", ID: valueID, F: "b1"}}, {Op{K: "v", ID: valueID, F: "b2", After: true}}}},
+	}
+	for i := range out {
+		out[i].Carrier = "chg"
+	}
+	return out
+}
+
+// ackOp: AcknowledgePublication of the version of the body, with the receipt r
+func ackOp(body, r int64) Op {
+	return Op{K: "k", ID: pubID, Expect: pp(body, 0), F: "s" + P{0, r}.String(), Mask: "b"}
 }
 
 func pubOp(body int64, expect *P) Op {
@@ -1063,7 +1121,7 @@ func main() {
 
 	// 1. witnesses: every schedule
 	exhaustiveCount := 0
-	for _, sc := range append(witnessScenarios(), icptWitnesses()...) {
+	for _, sc := range append(append(witnessScenarios(), icptWitnesses()...), carrierWitnesses()...) {
 		if stuckHooked >= 10 {
 			break
 		}
@@ -1142,6 +1200,8 @@ func main() {
 	phase("hooked")
 	pubFamily(f, res, rng, mon)
 	phase("publish-window")
+	sweepFamily(f, res, rng, mon)
+	phase("hail-sweep")
 	// 4. nested rivals (hooks removed)
 	for _, sc := range append(nestedWitnesses(), nestedIcptWitnesses()...) {
 		if stuckNested < 3 {
@@ -1200,6 +1260,9 @@ func main() {
 					tt.Count(h.Op.optionClass())
 				}
 				tt.Count("clock:" + c.sc.clock())
+				if c.sc.Carrier != "" {
+					tt.Count("message-type:" + c.sc.Carrier)
+				}
 				if c.sc.Writable != "" {
 					tt.Count("writable-fields:" + c.sc.Writable)
 				}
@@ -1242,6 +1305,11 @@ func (sc Scenario) family() string {
 	}
 	if sc.Pub {
 		q += "/publish-window"
+	}
+	if sc.Carrier == "hail" {
+		q += "/hail-model"
+	} else if sc.Carrier != "" {
+		q += "/change-message"
 	}
 	if sc.Nested {
 		q += "/nested"
@@ -1342,6 +1410,9 @@ func (sc Scenario) input(sched []int) map[string]any {
 	if sc.Pub {
 		in["pub"] = true
 	}
+	if sc.Carrier != "" {
+		in["carrier"] = sc.Carrier
+	}
 	if sc.Nested {
 		in["mode"] = "nested"
 		in["nested"] = true
@@ -1362,6 +1433,8 @@ func (o Op) optionClass() string {
 		return "opts:trait-caller:publicationpb.ModelServer.UpdatePublication"
 	case "q":
 		return "opts:trait-caller:publicationpb.ModelServer.DeletePublication"
+	case "k":
+		return "opts:trait-handler:publicationpb.ModelServer.AcknowledgePublication"
 	case "c":
 		return "opts:trait-handler:countpb.MemoryDevice.UpdateCount"
 	case "z":
@@ -1679,6 +1752,14 @@ func replay(f lib.Flags) int {
 		if ans, err := lib.RunOnce(f.Driver, []string{line}); err == nil {
 			fmt.Println("model:", ans[0])
 		}
+	}
+	if sc.usesTrait("h") {
+		scx, hist, v := expandSweeps(sc, r)
+		if v != nil {
+			fmt.Printf("STILL FAILS %s: %s (expected %s, observed %s)\n", v.sig+sc.family(), v.what, v.expected, v.observed)
+			return 1
+		}
+		sc, r.Hist = scx, hist
 	}
 	if v := judgeSteps(r); v != nil {
 		fmt.Printf("STILL FAILS %s: %s (expected %s, observed %s)\n", v.sig+sc.family(), v.what, v.expected, v.observed)
